@@ -30,6 +30,27 @@ CLAIMED["C08"] = (
     "trusts the validity model internal/model/registrar.go (written from the clause list of C08) and regexp.Compile for 'does not compile'; shapes the statement does not classify are EITHER",
     "DESIGN.md section 4 C08")
 
+CLAIMED["C07"] = (
+    "rapid-generated hostile requests (arbitrary bytes as method and URL.Path, up to 64 KiB / 4000 segments) over random valid route sets + native go fuzzing of a byte-decoded (route subset, method, headers, path) tuple; oracle = recover() + chain counter + exactly-one-of invariant + repeat determinism + reference matcher winner; per-case non-termination watchdog",
+    "Requests with any method token and any byte string as path are served against random valid route sets (incl. none; default and user not-found): no panic may escape ServeHTTP, the application middleware starts exactly once, exactly one of {route handler, not-found chain} runs, unknown methods reach the not-found chain, a repeated request gives the identical outcome, and the handler equals the reference matcher's winner. A case that does not return within 60 s is a violation.",
+    "trusts net/http/httptest, the reference matcher and the 60 s watchdog threshold (normal cost of a case: milliseconds); native fuzzing cannot be seeded, its saved crashers are the reproducible unit",
+    "DESIGN.md section 4 C07")
+CLAIMED["C09"] = (
+    "rapid-generated route sets with header constraints registered through Get/Route/Routes/Any and re-specified 1..3 times, oracle = reference matcher with the documented header gate applied to every form and method",
+    "Random valid route sets in which a random subset of routes is constrained (Headers called 1..3 times, registered through every multi-method API, incl. static and optional routes) are hit with requests carrying random header sets; the handler that ran (or not-found) must equal the reference matcher's winner when the gate 'every constrained header present, non-empty and matched' is applied to both forms and all methods of a route.",
+    "trusts the reference matcher, net/http header canonicalisation and Go's regexp for header expressions",
+    "DESIGN.md section 4 C09")
+CLAIMED["C10"] = (
+    "rapid-generated operation histories (register / Headers / request) replayed on Flame and on mirror route.Trees, differential oracle ServeHTTP vs Tree.Match plus the reference matcher",
+    "Histories of 3..25 operations - registrations of static, optional-static and shadowing dynamic routes, Headers() updates mirrored with SetHeaderMatcher, and requests whose paths include route text used literally, extra leading slashes and trailing slashes - are replayed; after every request the outcome of Flame.ServeHTTP (handler, parameters, not-found) must equal Tree.Match on the identically populated mirror tree and the reference matcher's answer.",
+    "the mirror is the same matcher code without the router's shortcut in front (the differential the property states); the independent reference matcher is the second opinion",
+    "DESIGN.md section 4 C10")
+CLAIMED["C12"] = (
+    "rapid-generated named routes x value assignments (values with braces, other bind names, slashes, empty, absent, unknown names, withOptional spelled several ways), oracle = own single-pass substitution over the derivation; inverse direction through dispatched requests",
+    "Named routes registered through Get/Route/Routes/Any/Combo/Group are built with Router.URLPath and Context.URLPath for random assignments and compared with an exact single-pass substitution written from the statement; requests built from route instances are served and the handler rebuilds the URL of its own route from the parameters it received, which must give the decoded request path; empty, duplicate and unknown names must panic.",
+    "trusts the reference substitution (30 lines) and the reference parser for the derivation; supplied names are identifiers",
+    "DESIGN.md section 4 C12")
+
 PENDING = {}
 
 def main():
